@@ -1,6 +1,6 @@
-SPECIFICATION GSpec
+SPECIFICATION FGSpec
 CONSTANTS
-  Members = {"p", "q"}
+  Members = {"p", "q", "r"}
   Vals = {1, 2, 3, 4}
   HwMax = 3
   HwModes = {"clip", "refuse"}
@@ -10,14 +10,14 @@ CONSTANTS
   Depth = 5
   Depth2 = 4
   Layouts = {"combined", "separate"}
-  WM = {"q"}
+  WM = {"q", "r"}
   WV = {4}
   AM = {"p"}
   AV = {1}
-  RM = {}
+  RM = {"r"}
   SWV = {2}
   SAV = {1}
   RS = TRUE
-CONSTRAINT Bound
-INVARIANT Emit1
+CONSTRAINT FBound
+INVARIANT FEmit
 CHECK_DEADLOCK FALSE
